@@ -1,6 +1,8 @@
 package main
 
 import (
+	"go/token"
+	"go/types"
 	"encoding/json"
 	"flag"
 	"fmt"
@@ -54,6 +56,7 @@ func main() {
 		fmt.Fprintln(os.Stderr, "contracts:", err)
 		os.Exit(2)
 	}
+	loadRenames(filepath.Join(*verif, "locals.baseline.json"), e)
 	loadS := time.Since(t0).Seconds()
 
 	switch cmd {
@@ -180,6 +183,7 @@ func main() {
 	solveS := time.Since(ts).Seconds()
 
 	if cmd == "baseline" {
+		writeLocalsBaseline(filepath.Join(*verif, "locals.baseline.json"), e, keys)
 		writeBaseline(filepath.Join(*verif, "obligations.baseline.json"), e, obls)
 	}
 
@@ -384,6 +388,81 @@ func readBaseline(path string) map[string]bool {
 		m[k] = true
 	}
 	return m
+}
+
+// localNames: the local variables (and named results) of a function in declaration order.
+func localNames(fi *FuncInfo) []string {
+	if fi == nil || fi.Decl == nil || fi.Pkg == nil {
+		return nil
+	}
+	type nv struct {
+		pos  token.Pos
+		name string
+	}
+	var all []nv
+	for id, obj := range fi.Pkg.TypesInfo.Defs {
+		v, ok := obj.(*types.Var)
+		if !ok || v.IsField() || id.Name == "_" {
+			continue
+		}
+		if fi.Decl.Pos() <= id.Pos() && id.Pos() < fi.Decl.End() {
+			all = append(all, nv{id.Pos(), id.Name})
+		}
+	}
+	sort.Slice(all, func(i, j int) bool { return all[i].pos < all[j].pos })
+	var out []string
+	for _, x := range all {
+		out = append(out, x.name)
+	}
+	return out
+}
+
+// writeLocalsBaseline records, per function under contract, its locals in declaration order, so that a
+// later pure renaming of a local (same number of declarations, same order) does not make the contract stale.
+func writeLocalsBaseline(path string, e *Engine, keys []string) {
+	old := map[string][]string{}
+	if data, err := os.ReadFile(path); err == nil {
+		json.Unmarshal(data, &old)
+	}
+	for _, k := range keys {
+		old[shortKey(k)] = localNames(e.funcs[k])
+	}
+	data, _ := json.MarshalIndent(old, "", " ")
+	os.WriteFile(path, append(data, '\n'), 0o644)
+}
+
+// loadRenames compares the recorded declaration lists with the current ones and derives old->new name maps.
+func loadRenames(path string, e *Engine) {
+	base := map[string][]string{}
+	data, err := os.ReadFile(path)
+	if err != nil || json.Unmarshal(data, &base) != nil {
+		return
+	}
+	for k, fi := range e.funcs {
+		was, ok := base[shortKey(k)]
+		if !ok {
+			continue
+		}
+		now := localNames(fi)
+		if len(was) != len(now) {
+			continue
+		}
+		m := map[string]string{}
+		consistent := true
+		for i := range was {
+			if was[i] == now[i] {
+				continue
+			}
+			if prev, dup := m[was[i]]; dup && prev != now[i] {
+				consistent = false
+			}
+			m[was[i]] = now[i]
+		}
+		if consistent && len(m) > 0 {
+			fi.renames = m
+			e.note("locals renamed in %s since the baseline (contract names translated): %v", shortKey(k), m)
+		}
+	}
 }
 
 func writeBaseline(path string, e *Engine, obls []*Obligation) {
